@@ -48,6 +48,37 @@ theorem T7_2b_out_of_scope (v : VerifiedMulti Node VH) (key : Key) (vh : VH)
     confirmValue v key vh = .err .keyOutOfScope ∧ confirmNonexistence v key = .err .keyOutOfScope := by
   simp [confirmValue, confirmNonexistence, h]
 
+/-- T7.2c **the covering path is unique**: in an accepted multi-proof (any prover-supplied object, any
+root) at most one verified path has the key in scope — so the index `find_index_for` returns is *the*
+path for the key, and `…_with_index` can succeed for no other index. -/
+theorem T7_2c_covering_path_unique (mp : MultiProof Node VH) (root : Node) (v : VerifiedMulti Node VH)
+    (hv : verifyMulti H mp root = .ok v) (key : Key) (i j : Nat) (vi vj : VPath VH)
+    (hi : v.inner[i]? = some vi) (hj : v.inner[j]? = some vj)
+    (hci : vi.covers key) (hcj : vj.covers key) : i = j :=
+  verifyMulti_cover_unique H mp root v hv key i j vi vj hi hj hci hcj
+
+/-- T18.2 (multi-proof lookups are total): on an accepted multi-proof, for a key at least as long as
+every verified depth (true for 256-bit keys: `depth ≤ |terminal path| ≤ 256`), `find_index_for`,
+`confirm_value` and `confirm_nonexistence` never reach a panic site. -/
+theorem T18_2_multi_lookups_total (mp : MultiProof Node VH) (root : Node) (v : VerifiedMulti Node VH)
+    (hv : verifyMulti H mp root = .ok v) (key : Key) (hk : ∀ vp ∈ v.inner, vp.depth ≤ key.length) (vh : VH) :
+    (findIndexFor v key).isPanic = false ∧ (confirmValue v key vh).isPanic = false ∧
+    (confirmNonexistence v key).isPanic = false := by
+  have hfi := findIndexFor_no_panic H mp root v hv key hk
+  refine ⟨hfi, ?_, ?_⟩
+  · cases h : findIndexFor v key with
+    | ok i =>
+      obtain ⟨vp, hget, _⟩ := findIndexFor_ok v key i h
+      simp [confirmValue, h, confirmValueInner, getIdx_some _ _ _ _ hget, Outcome.isPanic]
+    | err e => simp [confirmValue, h, Outcome.isPanic]
+    | panic s => rw [h] at hfi; simp [Outcome.isPanic] at hfi
+  · cases h : findIndexFor v key with
+    | ok i =>
+      obtain ⟨vp, hget, _⟩ := findIndexFor_ok v key i h
+      simp [confirmNonexistence, h, confirmNonexistenceInner, getIdx_some _ _ _ _ hget, Outcome.isPanic]
+    | err e => simp [confirmNonexistence, h, Outcome.isPanic]
+    | panic s => rw [h] at hfi; simp [Outcome.isPanic] at hfi
+
 /-- T7.1 **alignment**: whatever object the prover supplied and whatever the root, every path of an
 accepted multi-proof was hashed to the root along the first `depth` bits of its own terminal path
 (the bisection of `verify_range` never files a terminal under a foreign prefix). -/
